@@ -141,8 +141,14 @@ CHECKS.update({
              'convert_version_to_int is the Horner value, '
              'convert_version_to_str inverts it (its while loop is unrolled '
              'by the solver-decided exit test), integer order == tuple order '
-             'for equal lengths 1..5, plus the LIA induction step that '
-             'extends the order lemma to every length; invalid versions raise '
+             'for equal lengths 1..5, plus the LIA induction step and a '
+             'Lean 4 lemma (lean/RadixOrder.lean, re-checked by the Lean '
+             'kernel on every run) that the order of Horner values is the '
+             'component order, and packing injective, for EVERY common '
+             'length; the pre-release suffix substitution finds its marker '
+             'only at the end of the text and the predicate clause pattern '
+             'accepts exactly the documented form (regex-language lemmas on '
+             'the real pattern strings); invalid versions raise '
              'ValueError; is_compatible and VersionPredicate.satisfied_by '
              'control flow against an abstract totally ordered Version '
              '(operands and operator per clause, conjunction, no early '
